@@ -420,7 +420,7 @@ Proof.
   set (maxa := dflt servo_default_max_angle (a_max_a a)) in *.
   set (minp := dflt servo_default_min_pulse (a_min_p a)) in *.
   set (maxp := dflt servo_default_max_pulse (a_max_p a)) in *.
-  unfold py_ge, py_le.
+  rewrite !py_not_lt_ge. unfold py_ge, py_le.
   rewrite (snum_ok_qof mina), (snum_ok_qof maxa), (snum_ok_qof minp), (snum_ok_qof maxp) by assumption.
   destruct (Qleb (qval maxa) (qval mina)); [split; intros (? & E); [discriminate E|destruct E as (? & E); discriminate E]|].
   destruct (Qleb (qval maxp) (qval minp)); [split; intros (? & E); [discriminate E|destruct E as (? & E); discriminate E]|].
